@@ -1125,6 +1125,22 @@ let prop_encode p =
         | None -> None))
   | None -> None
 
+(** val prop_chunks : prop -> bytes option list **)
+
+let prop_chunks p =
+  match prop_encode p with
+  | Some bs -> (Some bs) :: []
+  | None ->
+    (match varint_write (kind_id p.pk) with
+     | Some idb ->
+       (match kind_shape p.pk with
+        | ShPair ->
+          (match len_prefixed p.pdata with
+           | Some a -> (Some idb) :: ((Some a) :: (None :: []))
+           | None -> (Some idb) :: (None :: []))
+        | _ -> (Some idb) :: (None :: []))
+     | None -> None :: [])
+
 type properties =
 | PSlice of prop list
 | PEncoded of bytes
@@ -1422,19 +1438,15 @@ let c_str =
 let c_varint =
   varint_write
 
-(** val c_prop : prop -> chunk **)
-
-let c_prop =
-  prop_encode
-
 (** val c_properties : properties -> chunk list **)
 
 let c_properties ps =
   (c_varint (props_size ps)) :: (match ps with
-                                 | PSlice l -> map c_prop l
+                                 | PSlice l -> flat_map prop_chunks l
                                  | PEncoded b -> (Some b) :: []
                                  | PWithCorr (c, l) ->
-                                   (c_prop c) :: (map c_prop l))
+                                   app (prop_chunks c)
+                                     (flat_map prop_chunks l))
 
 (** val rc_known : n -> bool **)
 
